@@ -1,6 +1,6 @@
 // T1 tracer for C12: Gauss-Kronrod rule and one step of each Runge-Kutta integrator, instantiated
 // with the recording scalar verif::Sym; integrand / right-hand side are uninterpreted calls.
-#include "tracehelp.hxx"
+#include "symq.hxx"
 #include <algorithm>
 #include <array>
 #include <cmath>
@@ -8,11 +8,6 @@
 #include <optional>
 #include <tuple>
 #include <vector>
-// |x| of a symbol is recorded as the uninterpreted `fn.abs` (tfel::math::abs is `(s < 0) ? -s : s`,
-// a value dependent branch); the theorems take `fn.abs x = |x|` as hypothesis
-namespace tfel::math {
-  inline verif::Sym abs(const verif::Sym& s) { return verif::abs(s); }
-}  // namespace tfel::math
 #include "TFEL/Math/tvector.hxx"
 #include "TFEL/Math/MathException.hxx"
 #include "TFEL/FSAlgorithm/FSAlgorithm.hxx"
@@ -51,12 +46,12 @@ struct F54 : RungeKutta54<2u, F54, Sym> {
 int main() {
   {
     Unit u("gk");
-    const Sym a = verif::scalar_input("a", -0.3);
-    const Sym b = verif::scalar_input("b", 1.7);
-    const auto f = [](const Sym x) { return verif::make_call("f", {x}, 1.); };
+    const verif::SymQ a(verif::scalar_input("a", -0.3));
+    const verif::SymQ b(verif::scalar_input("b", 1.7));
+    const auto f = [](const verif::SymQ x) { return verif::SymQ(verif::make_call("f", {x.v}, 1.)); };
     const auto [i, e] = gauss_kronrod_integrate.integrate(f, a, b);
-    verif::output("k15", i);
-    verif::output("err", e);
+    verif::output("k15", i.v);
+    verif::output("err", e.v);
   }
   {
     Unit u("rk2");
@@ -91,7 +86,7 @@ int main() {
     s.setInitialValue(verif::scalar_input("y", 0.4));
     s.setInitialTime(verif::scalar_input("t", 0.1));
     s.setFinalTime(verif::scalar_input("tf", 0.35));
-    s.setInitialTimeIncrement(verif::scalar_input("h", 0.25));
+    s.setInitialTimeIncrement(verif::scalar_input("h", 1.0));
     s.setCriterionValue(verif::scalar_input("eps", 1.));
     s.iterate();
     verif::output("y1", s.getValue());
@@ -106,7 +101,7 @@ int main() {
     s.setInitialValue(y0);
     s.setInitialTime(verif::scalar_input("t", 0.1));
     s.setFinalTime(verif::scalar_input("tf", 0.35));
-    s.setInitialTimeIncrement(verif::scalar_input("h", 0.25));
+    s.setInitialTimeIncrement(verif::scalar_input("h", 1.0));
     s.setCriterionValue(verif::scalar_input("eps", 1.));
     s.iterate();
     verif::output("y1", s.getValue()[0]);
